@@ -16,16 +16,26 @@ RoundTo(w, bits) == LET s == 32 - bits IN ClearLow(WAdd(w, WShl(1, s - 1)), s)
 \* as stated: |a - Round(a)| <= 2^(31-bits), ties either way
 IsRoundTo32(r, w, bits) == LET s == 32 - bits IN /\ ClearLow(r, s) = r /\ WAbsLeq(WSub(w, r), WShl(1, s - 1))
 
+\* digit j (1 = most significant) of a word already rounded to t*basebit bits
+DigitOf(r, j, bb) == LET s == 32 - j * bb  base == 2^bb IN
+                     IF s >= 16 THEN (r.h \div 2^(s - 16)) % base
+                     ELSE (((r.h % 2^(IF s + bb > 16 THEN s + bb - 16 ELSE 0)) * 2^(16 - s)) + (r.l \div 2^s)) % base
+Noisy == "en" \in DOMAIN R
+\* the noise of the rows actually used: row (i, j, d) for every input coefficient i (whatever its key bit) and every level j whose digit d is not 0
+UsedNoise == WSum([q \in 1..(R.nin * R.t) |->
+                LET ci == ((q - 1) \div R.t) + 1  lj == ((q - 1) % R.t) + 1
+                    d == DigitOf(RoundTo(Wd(R.a[ci]), R.t * R.bb), lj, R.bb)
+                IN IF d = 0 THEN WZero ELSE Wd(R.en[ci][lj][d])])
 RowKs == LET bits == R.t * R.bb
              rs == [q \in 1..R.nin |-> IF R.kin[q] = 1 THEN RoundTo(Wd(R.a[q]), bits) ELSE WZero]
              phin == WSub(R.b, WSum([q \in 1..R.nin |-> IF R.kin[q] = 1 THEN Wd(R.a[q]) ELSE WZero]))
              w == Len(SelectSeq(R.kin, LAMBDA x : x = 1))
          IN /\ bits <= 31 /\ R.can = 0
             /\ \A q \in 1..R.nin : IsRoundTo32(RoundTo(Wd(R.a[q]), bits), Wd(R.a[q]), bits)          \* the model rounds to nearest
-            /\ R.po = WSub(R.b, WSum(rs))                                                            \* exact relation on a noiseless key
+            /\ R.po = (IF Noisy THEN WSub(WSub(R.b, WSum(rs)), UsedNoise) ELSE WSub(R.b, WSum(rs)))      \* exact relation: rounding, plus (noisy key) the noise of the rows actually used
             /\ (Len(R.out) > 0 => Phase32(R.out, R.kout, R.nout) = R.po)                              \* lwePhase agrees with the sample
             \* as stated: |phase_out - phase_in| <= (#set key bits) * 2^-(t*basebit+1)
-            /\ ((w = 0 \/ 2^(31 - bits) <= (2^30) \div w) => WAbsLeq(WSub(R.po, phin), WOfInt(w * 2^(31 - bits))))
+            /\ ((~Noisy /\ (w = 0 \/ 2^(31 - bits) <= (2^30) \div w)) => WAbsLeq(WSub(R.po, phin), WOfInt(w * 2^(31 - bits))))
 \* rows of the generated key: ks[i][j][h] encrypts s_i * h / base^j (noise 0); digit 0 rows are trivial
 RowKsRow == /\ R.ph = (IF R.s = 1 THEN WShl(R.h, 32 - R.j * R.bb) ELSE WZero)
             /\ (R.h = 0 => R.az = 1)
